@@ -1,3 +1,4 @@
+import os
 #!/usr/bin/env python3
 # Regenerates /verif/MANIFEST.json from the table below (kept in one place so it stays valid).
 import json, os, subprocess
@@ -16,6 +17,21 @@ def add(pid, technique, text, note, ref):
 exec(open(os.path.join(root, "gen", "manifest_table.py")).read())
 
 props = [json.loads(l)["id"] for l in open(os.path.join(root, "properties.jsonl"))]
+
+def _engines():
+    """every extracted model that a check runs: coq/Extract/Extract_<name>.v -> coq/extracted/<name>_model.ml + ocaml/<name>_driver.ml"""
+    import re, glob
+    use = {}
+    for f in sorted(glob.glob(os.path.join(os.path.dirname(os.path.dirname(os.path.abspath(__file__))), "checks", "C*.py"))):
+        pid = os.path.basename(f)[:3]
+        for e in re.findall(r'ocaml_build\("(\w+)"\)', open(f).read()): use.setdefault(e, set()).add(pid)
+    out = []
+    for e in sorted(use):
+        out.append({"name": e, "path": "coq/Extract/Extract_%s.v + ocaml/%s_driver.ml" % (e, e), "serves_properties": sorted(use[e]),
+                    "kind_free_text": "Gallina model extracted to OCaml (ExtrOcamlBasic only) and run on the same inputs as the implementation by the check's correspondence leg"})
+    return out
+ENGINES = _engines()
+
 m = {
     "version": 1,
     "setup_cmd": "bin/setup",
@@ -26,7 +42,7 @@ m = {
         "source_commits": HOOK_COMMITS,
         "add_only": True,
     },
-    "engines": [],
+    "engines": ENGINES,
     "checks": [],
     "not_applicable": [],
     "notes": "Technique: machine-checked proof in Coq 8.16.1 about hand-written Gallina models, tied to /repo on every run by a correspondence check (extracted model vs the library built from the working tree) and by translators for tables/constants. See DESIGN.md.",
